@@ -4,6 +4,7 @@ import (
 	"bytes"
 	"fmt"
 	"os"
+	"runtime/debug"
 
 	"gitlab.com/gomidi/midi/v2/smf"
 
@@ -25,7 +26,8 @@ func init() {
 			"known fixed-length meta events are generated with their spec length (tempo 3 bytes non-zero, etc.)",
 			"header length is 6 (statement)",
 		},
-		Require: []string{"reads_with_eof_delivered_with_data", "files", "feat:running_status", "feat:padded_vlq", "feat:f0_without_f7", "feat:f7_packet", "feat:unknown_meta", "feat:long_payload", "feat:alien_before", "feat:alien_between", "feat:alien_after", "feat:smpte", "decoder_crosschecks", "events_compared", "messages_classified", "pipe_reads", "reads_with_log_option"},
+		Require: []string{"many_unknown_chunk_files", "reads_with_eof_delivered_with_data", "files", "feat:running_status", "feat:padded_vlq", "feat:f0_without_f7", "feat:f7_packet", "feat:unknown_meta", "feat:long_payload", "feat:alien_before", "feat:alien_between", "feat:alien_after", "feat:smpte", "decoder_crosschecks", "events_compared", "messages_classified", "pipe_reads", "reads_with_log_option"},
+		UsesCur: true,
 		Run:     runC02,
 	})
 }
@@ -269,6 +271,58 @@ func runC02(c *mon.Ctx) {
 		if i < 1 {
 			c.Sample("random-file", mon.Hex(head(f.Bytes(nil), 120)))
 		}
+	})
+	// many unknown chunks in a row (before the first track, between two tracks, after the last): the count
+	// must not matter. The goroutine stack limit of the worker is lowered to 16 MiB (Go's default is 1 GB),
+	// so that work per skipped chunk that is kept on the stack shows after about a million chunks instead
+	// of tens of millions; a fatal stack overflow kills the worker and is attributed to this case.
+	c.Each("many-unknown-chunks", c.N(3, 6), func(i int64, r *mon.Rand) {
+		old := debug.SetMaxStack(16 << 20)
+		defer debug.SetMaxStack(old)
+		n := int(c.N(700_000, 3_000_000))
+		var out bytes.Buffer
+		out.Write([]byte{'M', 'T', 'h', 'd', 0, 0, 0, 6, 0, 1, 0, 2, 0, 96})
+		aliens := func(k int) {
+			for j := 0; j < k; j++ {
+				out.Write([]byte{'x', 'T', byte('a' + j%26), byte('0' + j%10), 0, 0, 0, byte(j % 3)})
+				out.Write([]byte{1, 2, 3}[:j%3])
+			}
+		}
+		track := func(key byte) {
+			out.Write([]byte{'M', 'T', 'r', 'k', 0, 0, 0, 8, 0, 0x90, key, 0x40, 0, 0xFF, 0x2F, 0})
+		}
+		where := []string{"before the first track", "between the two tracks", "after the last track"}[i%3]
+		switch i % 3 {
+		case 0:
+			aliens(n)
+			track(1)
+			track(2)
+		case 1:
+			track(1)
+			aliens(n)
+			track(2)
+		default:
+			track(1)
+			track(2)
+			aliens(n)
+		}
+		in := map[string]any{"unknown_chunks_in_a_row": n, "where": where, "file_size": out.Len(), "goroutine_stack_limit": "16 MiB"}
+		c.CurPayload([]byte(fmt.Sprint(in)))
+		var sm *smf.SMF
+		var err error
+		if c.Guard("panic:ReadFrom", in, func() { sm, err = smf.ReadFrom(bytes.NewReader(out.Bytes())) }) {
+			return
+		}
+		c.Count("many_unknown_chunk_files", 1)
+		if err != nil {
+			c.Violation("read-error", fmt.Sprintf("ReadFrom rejects a spec-valid file with %d unknown chunks %s: %v", n, where, err), in, "value", err.Error())
+			return
+		}
+		want := &ref.File{Format: 1, Division: 96, Tracks: [][]ref.Ev{{{Delta: 0, Msg: []byte{0x90, 1, 0x40}}, {Delta: 0, Msg: ref.EOT}}, {{Delta: 0, Msg: []byte{0x90, 2, 0x40}}, {Delta: 0, Msg: ref.EOT}}}}
+		if diff := ref.EqualFiles(want, fromLib(sm)); diff != "" {
+			c.Violation("content", fmt.Sprintf("file with %d unknown chunks %s: %s", n, where, diff), in, nil, nil)
+		}
+		c.DistinctBytes([]byte(fmt.Sprint("many-unknown", i, n)))
 	})
 	if c.Thorough() {
 		c.Each("huge", 3, func(i int64, r *mon.Rand) {
